@@ -18,7 +18,8 @@ LEVEL = 'exploration'
 RULE = ('Hypothesis strategy over (filter class in base/Util/VideoIn/VideoOut/ImageIn/ImageOut/MQTTOut/REST/Webvis/Recorder) x scheme x '
         'RFC userinfo x placement (string, comma list, list, tuple, dict, nested <= 3, per-source record; valid config and config that fails '
         'normalisation). Non-trivial = the credential sits below the top level or the password contains one of ! : / ? # or a pct-escape. '
-        'Distinct = distinct case value.')
+        'Distinct = distinct case value.'
+        " Also: special/empty users, two credentials per string with ', ' or ',' between them, host-only URIs, a credentialed URI on the message-queue side (refused by init), ImageIn sources (s3/gs/http/file), valid configurations that are rejected are judged through Filter.run().")
 ASSUMPTIONS = ['observation points are the root logger, meta.src and the lineage client; vidgear VideoGear/WriteGear are replaced by fakes',
                'passwords never contain unescaped @ or whitespace (RFC 3986) nor the enclosing config delimiters , ; when written in text form']
 BUDGET = {'quick': 45, 'thorough': 600}
